@@ -312,13 +312,7 @@ def gen_volume(rng, label, total, first_free, maxfiles, origin=0, cat_at=0, nfil
     if nfiles is None:
         nfiles = rng.weighted([(1, 0), (2, 1), (4, rng.randint(2, 6)), (3, rng.randint(1, maxfiles)), (1, maxfiles)])
     nfiles = min(nfiles, maxfiles, max(0, total - first_free))
-    placements = layout_files(rng, nfiles, first_free, min(total, 1024))
-    if total > 1024 and placements and rng.chance(0.4):
-        # start sectors have 10 bits, but the file highest up may run on into the sectors beyond 1023
-        st, ln = placements[0]
-        if ln and st + (ln + 255) // 256 >= 1000:
-            nsec = rng.randint(1024 - st + 1, total - st)
-            placements[0] = (st, min(0x3FFFF, nsec * 256 - rng.choice([0, 1, 255])))
+    placements = layout_files(rng, nfiles, first_free, total)
     names = gen_names(rng, len(placements))
     files = []
     for (start, length), (d, name) in zip(placements, names):
@@ -420,11 +414,6 @@ def _gen_surface(rng, variant=None, img_id=1, side=0, geom=None, density=None):
     tracks, spt = geom
     n = tracks * spt
     total = min(n, 1023)
-    if n > 1023 and variant == 'watford' and rng.chance(0.5):
-        # an 80-track double-density disc has 1280 or 1440 sectors: Watford DDFS records the true figure using bit 10
-        # of the sector count (file start sectors still have 10 bits).  Not done for the Acorn format: the tools
-        # under test read that bit as an HDFS matter there and refuse such a catalogue, which is outside C01's claim
-        total = n
     if variant == 'watford':
         v = gen_volume(rng, None, total, 4, 62, frag_split=True)
     else:
